@@ -63,6 +63,7 @@ StreamWhy(e) ==
   ELSE IF ~e.closed THEN "stream-not-closed"
   ELSE IF Len(s) = 0 THEN "stream-empty"
   ELSE IF \E i \in 1..Len(s) : ResWhy(s[i], FALSE) # "" THEN "stream-invalid-result"
+  ELSE IF \E i \in 1..Len(s) : s[i].late # s[i].model THEN "stream-result-modified-after-delivery"
   ELSE IF \E i \in 1..(Len(s) - 1) : s[i].status = "SAT" /\ s[i + 1].status = "SAT"
                                      /\ s[i + 1].cost >= s[i].cost THEN "stream-not-decreasing"
   ELSE IF s[Len(s)].status # e.status \/ (e.status = "SAT" /\ (s[Len(s)].cost # e.cost
